@@ -42,3 +42,16 @@ func LastErrors() []string {
 	errLog.lines = nil
 	return out
 }
+
+// Why shortens an error to its first words: used as the reason of a discarded case, so that the classes of
+// discards are visible in the evidence (a new class of discards may be a defect hiding behind the harness).
+func Why(err error) string {
+	if err == nil {
+		return "-"
+	}
+	f := strings.Fields(err.Error())
+	if len(f) > 12 {
+		f = f[:12]
+	}
+	return strings.Join(f, " ")
+}
